@@ -120,6 +120,31 @@ func init() {
 	specsFor["C02"] = c02Specs
 	checks["C02"] = func(c *Ctx) *Result {
 		r := runSpecs(c, c02Specs(c.Tier))
+		if r.Found == nil {
+			sizes := []int{70, 300, 1500}
+			if c.Tier == "thorough" {
+				sizes = []int{70, 300, 1500, 9000}
+			}
+			total := 0
+			for _, n := range sizes {
+				for _, order := range []string{"ascending", "descending", "alternating"} {
+					for _, cfg := range []Cfg{defaultCfg, {Fast: false, Cache: 1000, IVSet: true, IV: 8190}} {
+						if len(r.Raw) > 0 {
+							break
+						}
+						k, fail := bigTreeHashes(n, order, cfg)
+						total += k
+						if fail != "" {
+							rawViolation(c, r, fail, map[string]any{"keys": n, "order": order, "cfg": cfg})
+						}
+					}
+				}
+			}
+			r.States += total
+			r.Transitions += total
+			r.Extra = map[string]any{"large_tree_supplement": map[string]any{"sizes": sizes, "orders": []string{"ascending", "descending", "alternating"}, "hash_comparisons": total,
+				"note": "fixed large scenarios (not exhaustive): inserts over several commits, then a third of the keys removed and a fifth updated; WorkingHash every 25 operations, every SaveVersion hash and every version's hash on a fresh instance compared with the reference; default configuration and (cache 1000, index off, InitialVersion 8190)"}}
+		}
 		r.Assumptions = []string{
 			"the reference tree (check/ref) implements the documented IAVL+ rules independently; it is cross-validated against golden hashes of the repository's tests (selfcheck)",
 			"read-only deviations: at most MaxReads read-only calls per history, drawn from 12 call kinds",
